@@ -43,6 +43,22 @@ func init() {
 		"Pick":       vsPick,
 		"IsSubslice": vsIsSubslice,
 		"Symbolic":   func(fr *frame, a []value) value { return true },
+		// Fork decides a condition by forking the path (never ite-merged): the result is concrete.
+		"Fork": func(fr *frame, a []value) value { return fr.i.truth(a[0]) },
+		// Ite* select without forking.
+		"IteI64": vsIte, "IteInt": vsIte, "IteU64": vsIte, "IteBool": vsIte, "IteByte": vsIte,
+		"And": func(fr *frame, a []value) value {
+			in := fr.i
+			return norm(types.Typ[types.Bool], in.needPath().tt.And(in.boolTerm(a[0]), in.boolTerm(a[1])))
+		},
+		"Or": func(fr *frame, a []value) value {
+			in := fr.i
+			return norm(types.Typ[types.Bool], in.needPath().tt.Or(in.boolTerm(a[0]), in.boolTerm(a[1])))
+		},
+		"Implies": func(fr *frame, a []value) value {
+			in := fr.i
+			return norm(types.Typ[types.Bool], in.needPath().tt.Implies(in.boolTerm(a[0]), in.boolTerm(a[1])))
+		},
 	}
 }
 
@@ -61,6 +77,25 @@ func (in *interpreter) nondet(name value, w uint8, t types.Type) value {
 func (in *interpreter) rangeNondet(name string, lo, hi int64) *Term {
 	p := in.needPath()
 	tt := p.tt
+	if lo >= 0 {
+		// Declare the interval so that the term layer can use it, and assert the
+		// range constraint as raw SMT text (built as a term it would be
+		// simplified away by the very interval it justifies).
+		if p.tt.vr == nil {
+			p.tt.vr = make(map[string][2]uint64)
+		}
+		sym := fmt.Sprintf("n%d_%s", len(p.nondets), sanitize(name))
+		p.tt.vr[sym] = [2]uint64{uint64(lo), uint64(hi)}
+		x := p.NewNondet(name, 64)
+		p.w.solver.Assert(fmt.Sprintf("(and (bvule %s %s) (bvule %s %s))", constStr(64, uint64(lo)), sym, sym, constStr(64, uint64(hi))))
+		if p.model != nil {
+			if v := p.model[sym]; v < uint64(lo) || v > uint64(hi) {
+				p.model[sym] = uint64(lo)
+				p.memo = nil
+			}
+		}
+		return x
+	}
 	x := p.NewNondet(name, 64)
 	p.Assume(tt.And(tt.Sle(tt.Const(64, uint64(lo)), x), tt.Sle(x, tt.Const(64, uint64(hi)))))
 	return x
@@ -183,6 +218,24 @@ func vsPick(fr *frame, a []value) value {
 		return a[1]
 	}
 	return a[0]
+}
+
+func vsIte(fr *frame, a []value) value {
+	in := fr.i
+	switch c := a[0].(type) {
+	case bool:
+		if c {
+			return a[1]
+		}
+		return a[2]
+	case *Term:
+		v, ok := in.iteValue(c, a[1], a[2])
+		if !ok {
+			unsupported("vs.Ite on %T/%T", a[1], a[2])
+		}
+		return v
+	}
+	panic("vsIte")
 }
 
 func vsIsSubslice(fr *frame, a []value) value {
